@@ -260,6 +260,17 @@ fn scenarios(prop: &str, rng: &mut Rng, thorough: bool) -> Vec<Scenario> {
             }
         }
     }
+    if prop == "C08" {
+        // an LZMA chunk with the maximal compressed size field (0xFFFF = 65536 bytes)
+        if let Some((stream, data)) = lzma2_max_compressed_chunk(rng.next()) {
+            for workers in [1u32, 2] {
+                v.push(Scenario {
+                    name: format!("lzma2r-maxchunk-w{workers}"), kind: "lzma2r", input: stream.clone(), expect: Some(data.clone()), workers, dict: 1 << 16, unit: 0,
+                    reads_before_drop: None, writes: vec![], finish: true, flush_at: None, may_ok: false, ok_only_with: None,
+                });
+            }
+        }
+    }
     v
 }
 
